@@ -88,6 +88,8 @@ def generate(rng):
     k = rng.choice([0, 1, 1, 2, 3, 3])
     scn['cuts'] = sorted(set(rng.randint(1, max(1, len(data) - 1)) for _ in range(k))) if len(data) > 1 else []
     scn['how'] = rng.choice(['split_write', 'split_write', 'torn_read', 'maxread'])
+    if tr == 'fd' and rng.random() < 0.25:
+        scn['how'] = 'growing_file'
     scn['maxread'] = rng.choice([1, 2, 3, 2000]) if scn['how'] == 'maxread' else 2000
     if tr in ('fd', 'pty'):
         scn['use_poll'] = rng.random() < 0.3
@@ -95,7 +97,7 @@ def generate(rng):
         scn['sched'] = [rng.randint(0, 3) for _ in range(rng.randint(1, 8))]
     scn['logs'] = rng.choice([[], ['logfile_read'], ['logfile'], ['logfile', 'logfile_read']])
     scn['drain'] = rng.choice(['read', 'expect_eof', 'expect_each'])
-    if tr in ('fd', 'pty') and rng.random() < 0.35:
+    if tr in ('fd', 'pty') and rng.random() < 0.35 and scn['how'] != 'growing_file':
         scn['async'] = True          # the asyncio path: awaited expect under the virtual-time loop
         scn['drain'] = rng.choice(['expect_eof', 'expect_each'])
     if scn.get('use_poll') and scn.get('transport') in ('pty', 'fd') and rng.random() < 0.3:
@@ -156,6 +158,13 @@ def run(scn):
     elif how == 'torn_read':
         sc['peer'] = [{'op': 'w', 'd': harness.l1(data), 'dt': 5}, end]
         sc['tear'] = [len(p) for p in pcs[:-1]] + [0]
+    elif how == 'growing_file':
+        # fdspawn reading through a regular file that is still being written: between two appends the reader reaches the
+        # current end (an empty read, reported as EOF) and carries on later; the cut may fall inside a character
+        if tr != 'fd' or scn.get('async'):
+            raise HarnessError('growing_file is an fd scenario')
+        sc['fd_kind'] = 'regfile'
+        sc['peer'] = [{'op': 'w', 'd': harness.l1(p), 'dt': 400000} for p in pcs]
     else:
         sc['peer'] = [{'op': 'w', 'd': harness.l1(data), 'dt': 5}, end]
     sc['timeout'] = 5
@@ -224,6 +233,18 @@ def run(scn):
                         loop.close()
                     except Exception:
                         pass
+            elif how == 'growing_file':
+                acc = st()
+                for _ in range(len(pcs) + 1):
+                    # read up to the current end of the file, then come back after the next append
+                    try:
+                        child.expect(EOF, timeout=1)
+                    except TIMEOUT:
+                        pass
+                    acc += child.before
+                    r.w.sleep(400000)
+                got = acc
+                r.w.probe('read_through_a_growing_file')
             elif drain == 'read':
                 got = child.read()
             elif drain == 'expect_eof':
